@@ -7,9 +7,12 @@
 //!       seed, AirDesc; the proof is regenerated deterministically and cached per process), apply the
 //!       byte edits, then `Proof::from_bytes` and, when it parses and <vcfg> is not `-`, `verify`
 //!       against the AIR / public inputs of configuration <vcfg> (the same one, or a different AIR).
-//!       <mode>: c = MinConjecturedSecurity(0), p = MinProvenSecurity(0), o = OptionSet([options of vcfg]).
+//!       <mode>: c / p = MinConjecturedSecurity / MinProvenSecurity at level 0; c<N> / p<N> at level N; c= / p= at
+//!       exactly the level the (mutated) proof has, c+ / p+ one above it; o = OptionSet([options of vcfg]),
+//!       o2 = OptionSet([other options, options of vcfg]), oe = OptionSet([]), om = OptionSet([options of the mutant]).
 //!       <edits>: `-` or comma separated  s<off>:<hex> overwrite | x<off>:<hex> xor | t<len> truncate |
-//!       a<hex> append | d<off>:<len> delete | i<off>:<hex> insert | r<off>:<len>:<hex> replace range.
+//!       a<hex> append | d<off>:<len> delete | i<off>:<hex> insert | r<off>:<len>:<hex> replace range |
+//!       f<off>:<len>:<count>:<byte> replace a range by <count> copies of a byte.
 //!       output `<parse> <front> <deep>` (the Lean driver answers `-`: exploration only).
 //!   raw x <label> <vcfg> <field> <hasher> <e> <main degs> <aux degs> <#main asserts> <#aux asserts> <aux width of the AIR> <lagrange 0|1> <hex>
 //!       the same on literal bytes, mode c; the AIR parameters on the line are those of <vcfg> (checked)
@@ -20,6 +23,11 @@
 //!       the stand-alone FRI entry points on an honest FRI proof (64-bit field, Blake3_256) after the edits:
 //!       `FriProof::read_from_bytes`, `DefaultVerifierChannel::new`, `FriVerifier::new`, `verify`;
 //!       output `<parse>[ <chan-err | new-err:.. | err:.. | ok | panic>]` (not modelled).
+//!
+//!   mrk x <label> <hasher> <log2 leaves> <i.j.k opened indexes> <depth delta> <edits>
+//!       the stand-alone batch Merkle entry points on the serialized nodes of an honest opening after the edits:
+//!       `BatchMerkleProof::deserialize` (depth = log2 leaves + delta), `get_root`, `MerkleTree::verify_batch`,
+//!       `into_paths`; output `eof | err | ok <root|other|e> <acc|rej> <pathsN|e>` (not modelled).
 //!
 //! Outcome classes
 //!   parse: ok | err | eof | panic
@@ -238,6 +246,45 @@ fn verify_g<B: GField, H: ElementHasher<BaseField = B> + Send + Sync>(
     winter_verifier::verify::<GenericAir<B>, H, StageCoin<H>>(proof, GenPub { desc: desc.clone(), values }, acceptable)
 }
 
+fn sec_g<B: GField, H: ElementHasher<BaseField = B> + Send + Sync>(proof: &Proof, conjectured: bool) -> u32 {
+    proof.security_level::<H>(conjectured)
+}
+
+fn validate_g<B: GField, H: ElementHasher<BaseField = B> + Send + Sync>(acc: &AcceptableOptions, proof: &Proof) -> bool {
+    acc.validate::<H>(proof).is_ok()
+}
+
+/// the acceptance policy named by <mode> (see the head of the file); `Err` = the security level of the
+/// mutant could not be computed (it panicked: reported by the caller through verify() itself)
+fn acceptable(mode: &str, vb: &Base, proof: &Proof) -> AcceptableOptions {
+    let level = |conj: bool, rest: &str| -> u32 {
+        match rest {
+            "" => 0,
+            "=" | "+" => {
+                let l = guarded(|| dispatch!(vb.cfg.field, vb.cfg.hash, sec_g, (proof, conj))).unwrap_or(0);
+                if rest == "+" {
+                    l.saturating_add(1)
+                } else {
+                    l
+                }
+            },
+            n => n.parse::<u32>().unwrap_or(0),
+        }
+    };
+    match mode {
+        "o" => AcceptableOptions::OptionSet(vec![vb.opts.to_options()]),
+        "o2" => AcceptableOptions::OptionSet(vec![ProofOptions::new(7, 16, 3, FieldExtension::Quadratic, 8, 15), vb.opts.to_options()]),
+        "oe" => AcceptableOptions::OptionSet(vec![]),
+        "om" => AcceptableOptions::OptionSet(vec![proof.options().clone()]),
+        m if m.starts_with('p') => AcceptableOptions::MinProvenSecurity(level(false, &m[1..])),
+        m if m.starts_with('c') => AcceptableOptions::MinConjecturedSecurity(level(true, &m[1..])),
+        _ => AcceptableOptions::MinConjecturedSecurity(0),
+    }
+}
+
+/// the policies every mutant family is run under (the first one is the model-compared one)
+const POLICIES: &[&str] = &["c", "p", "o", "om", "c=", "c+", "p=", "p+", "c96", "p64", "c4294967295", "p4294967295", "o2", "oe"];
+
 fn modulus_bytes(field: FieldId) -> Vec<u8> {
     match field {
         FieldId::F62 => f62::BaseElement::get_modulus_le_bytes(),
@@ -266,6 +313,7 @@ const SQ8E1: &str = "w=1;l=8;e=1;j=0;p=;g=S?:+^2c0k5;t=2:-n0+^2c0k5;a=s0.0";
 const CUBE8: &str = "w=1;l=8;e=1;j=0;p=;g=S?:+^3c0k5;t=3:-n0+^3c0k5;a=s0.0,s0.7";
 const POW5: &str = "w=1;l=8;e=1;j=0;p=;g=S?:+^5c0k5;t=5:-n0+^5c0k5;a=s0.0";
 const AUX16: &str = "w=2;l=16;e=7;j=0;p=;g=S?:+^2c0k2,S?:+^2c1k4;t=2:-n0+^2c0k2,2:-n1+^2c1k4;a=q1.0.16;x=2.2.0;h=F:+*r1c1r0,Ar1:/*a1++c0r0a0+c1r0;u=1:-a0+*r1c1r0,2:-*b1+c1r0*a1++c0r0a0;b=q0.0.16=+*r1w0r0,s1.0=r1";
+const AUXW: &str = "w=1;l=16;e=1;j=0;p=;g=S?:+^2c0k3;t=2:-n0+^2c0k3;a=s0.0;x=3.2.0;h=F:+c0r0,F:*c0r1,F:+*c0r0r1;u=1:-a0+c0r0,1:-a1*c0r1,1:-a2+*c0r0r1;b=s0.0=+v0r0";
 const LAG8: &str = "w=4;l=8;e=1;j=0;p=;g=S?:+*c0c1k3,S?:+c1c0,S?:+*c2c3k3,S?:+c3c2;t=2:-n0+*c0c1k3,1:-n1+c1c0,2:-n2+*c2c3k3,1:-n3+c3c2;a=s0.0,s3.7;x=2.1.1;h=Ak1:*a0+c0r0;u=2:-b0*a0+c0r0;b=s0.0=k1";
 const PER32: &str = "w=2;l=32;e=1;j=0;p=1.2.3.4|5.7;g=S?:+*c0p0p1,S1:+c1c0;t=1.4.2:-n0+*c0p0p1,1:-n1+c1c0;a=s0.0,s1.31";
 
@@ -278,6 +326,7 @@ pub const CFGS: &[Cfg] = &[
     Cfg { name: "pow5", field: FieldId::F64, hash: HashId::Blake3_256, opts: "2.8.0.1.2.3", seed: 11, desc: POW5, lenient: false },
     Cfg { name: "cube128", field: FieldId::F128, hash: HashId::Blake3_192, opts: "2.8.0.1.4.1", seed: 6, desc: CUBE8, lenient: false },
     Cfg { name: "aux16", field: FieldId::F128, hash: HashId::Sha3_256, opts: "3.8.0.2.8.1", seed: 424292, desc: AUX16, lenient: false },
+    Cfg { name: "auxw", field: FieldId::F64, hash: HashId::Sha3_256, opts: "3.2.1.2.2.3", seed: 13, desc: AUXW, lenient: false },
     Cfg { name: "lag8", field: FieldId::F64, hash: HashId::Blake3_256, opts: "2.4.0.1.4.3", seed: 12, desc: LAG8, lenient: false },
     Cfg { name: "fib62", field: FieldId::F62, hash: HashId::Rp62_248, opts: "2.4.0.1.2.1", seed: 7, desc: FIB16, lenient: false },
     Cfg { name: "fib62q", field: FieldId::F62, hash: HashId::Blake3_256, opts: "1.2.3.2.2.0", seed: 8, desc: FIB8, lenient: false },
@@ -403,6 +452,15 @@ fn apply_edits(bytes: &mut Vec<u8>, edits: &str) -> Result<(), String> {
                 let off = num(parts.first().ok_or("edit")?)?.min(bytes.len());
                 let len = num(parts.get(1).ok_or("edit")?)?.min(bytes.len() - off);
                 let v = unhex(parts.get(2).ok_or("edit")?);
+                bytes.splice(off..off + len, v);
+            },
+            "f" => {
+                // f<off>:<len>:<count>:<byte>: replace a range by <count> copies of one byte
+                let off = num(parts.first().ok_or("edit")?)?.min(bytes.len());
+                let len = num(parts.get(1).ok_or("edit")?)?.min(bytes.len() - off);
+                let cnt = num(parts.get(2).ok_or("edit")?)?;
+                let b = unhex(parts.get(3).ok_or("edit")?);
+                let v = vec![*b.first().unwrap_or(&0); cnt.min(1 << 24)];
                 bytes.splice(off..off + len, v);
             },
             _ => return Err(format!("unknown edit {}", e)),
@@ -566,6 +624,304 @@ pub fn layout(b: &[u8], digest: usize) -> Option<(Vec<Fld>, Vec<Comp>)> {
     Some((w.flds, w.comps))
 }
 
+// ------------------------------------------------------------------------------------ structured proofs
+/// a length-prefixed pair of blocks (`Queries`, `FriProofLayer`)
+#[derive(Clone, Debug, PartialEq)]
+pub struct QS {
+    pub values: Vec<u8>,
+    pub paths: Vec<u8>,
+}
+
+/// a serialized proof taken apart by an independent walk over the format; `to_bytes` writes every length /
+/// count prefix from the actual contents, so structural mutants stay parseable
+#[derive(Clone, Debug, PartialEq)]
+pub struct SP {
+    pub ti: [u8; 4],
+    pub meta: Vec<u8>,
+    pub modulus: Vec<u8>,
+    pub opts: [u8; 6],
+    pub uniq: u8,
+    pub commitments: Vec<u8>,
+    pub tq: Vec<QS>,
+    pub cq: QS,
+    pub ood_trace: Vec<u8>,
+    pub ood_lagrange: Vec<u8>,
+    pub ood_evals: Vec<u8>,
+    pub layers: Vec<QS>,
+    pub remainder: Vec<u8>,
+    pub partitions: u8,
+    pub nonce: [u8; 8],
+    pub gkr: Option<Vec<u8>>,
+}
+
+/// vint64 encoding of `write_usize` (written from the format description, not from the library)
+pub fn vint(v: u64) -> Vec<u8> {
+    let bits = 64 - v.leading_zeros() as usize;
+    let len = if bits <= 7 { 1 } else if bits > 56 { 9 } else { (bits + 6) / 7 };
+    if len == 9 {
+        let mut o = vec![0u8];
+        o.extend_from_slice(&v.to_le_bytes());
+        return o;
+    }
+    let x: u64 = ((v << 1) | 1) << (len - 1);
+    x.to_le_bytes()[..len].to_vec()
+}
+
+struct Rd<'a> {
+    b: &'a [u8],
+    p: usize,
+}
+
+impl<'a> Rd<'a> {
+    fn take(&mut self, n: usize) -> Option<&'a [u8]> {
+        if self.p + n > self.b.len() {
+            return None;
+        }
+        let r = &self.b[self.p..self.p + n];
+        self.p += n;
+        Some(r)
+    }
+    fn le(&mut self, n: usize) -> Option<usize> {
+        let s = self.take(n)?;
+        let mut v = 0usize;
+        for i in (0..n).rev() {
+            v = (v << 8) | s[i] as usize;
+        }
+        Some(v)
+    }
+    fn block(&mut self, prefix: usize) -> Option<Vec<u8>> {
+        let n = self.le(prefix)?;
+        Some(self.take(n)?.to_vec())
+    }
+    fn qs(&mut self) -> Option<QS> {
+        Some(QS { values: self.block(4)?, paths: self.block(4)? })
+    }
+}
+
+impl SP {
+    pub fn parse(b: &[u8]) -> Option<SP> {
+        let mut r = Rd { b, p: 0 };
+        let ti: [u8; 4] = r.take(4)?.try_into().ok()?;
+        let meta = r.block(2)?;
+        let modulus = r.block(1)?;
+        let opts: [u8; 6] = r.take(6)?.try_into().ok()?;
+        let uniq = r.le(1)? as u8;
+        let commitments = r.block(2)?;
+        let mut tq = vec![r.qs()?];
+        if ti[1] > 0 {
+            tq.push(r.qs()?);
+        }
+        let cq = r.qs()?;
+        let ood_trace = r.block(2)?;
+        let ood_lagrange = r.block(2)?;
+        let ood_evals = r.block(2)?;
+        let nl = r.le(1)?;
+        let mut layers = vec![];
+        for _ in 0..nl {
+            layers.push(r.qs()?);
+        }
+        let remainder = r.block(2)?;
+        let partitions = r.le(1)? as u8;
+        let nonce: [u8; 8] = r.take(8)?.try_into().ok()?;
+        let gkr = match r.le(1)? {
+            0 => None,
+            _ => {
+                let first = *b.get(r.p)?;
+                let l = (first.trailing_zeros() as usize + 1).min(9);
+                let raw = r.le(l)?;
+                let n = if l == 9 { raw >> 8 } else { raw >> l };
+                Some(r.take(n)?.to_vec())
+            },
+        };
+        if r.p != b.len() {
+            return None;
+        }
+        Some(SP { ti, meta, modulus, opts, uniq, commitments, tq, cq, ood_trace, ood_lagrange, ood_evals, layers, remainder, partitions, nonce, gkr })
+    }
+
+    pub fn to_bytes(&self) -> Vec<u8> {
+        fn blk(o: &mut Vec<u8>, prefix: usize, d: &[u8]) {
+            o.extend_from_slice(&(d.len() as u64).to_le_bytes()[..prefix]);
+            o.extend_from_slice(d);
+        }
+        let mut o = vec![];
+        o.extend_from_slice(&self.ti);
+        blk(&mut o, 2, &self.meta);
+        blk(&mut o, 1, &self.modulus);
+        o.extend_from_slice(&self.opts);
+        o.push(self.uniq);
+        blk(&mut o, 2, &self.commitments);
+        for q in &self.tq {
+            blk(&mut o, 4, &q.values);
+            blk(&mut o, 4, &q.paths);
+        }
+        blk(&mut o, 4, &self.cq.values);
+        blk(&mut o, 4, &self.cq.paths);
+        blk(&mut o, 2, &self.ood_trace);
+        blk(&mut o, 2, &self.ood_lagrange);
+        blk(&mut o, 2, &self.ood_evals);
+        o.push(self.layers.len() as u8);
+        for q in &self.layers {
+            blk(&mut o, 4, &q.values);
+            blk(&mut o, 4, &q.paths);
+        }
+        blk(&mut o, 2, &self.remainder);
+        o.push(self.partitions);
+        o.extend_from_slice(&self.nonce);
+        match &self.gkr {
+            None => o.push(0),
+            Some(g) => {
+                o.push(1);
+                o.extend_from_slice(&vint(g.len() as u64));
+                o.extend_from_slice(g);
+            },
+        }
+        o
+    }
+}
+
+/// node vectors of a serialized batch Merkle proof
+pub fn nodes_parse(paths: &[u8], digest: usize) -> Option<Vec<Vec<Vec<u8>>>> {
+    let mut r = Rd { b: paths, p: 0 };
+    let n = r.le(1)?;
+    let mut out = vec![];
+    for _ in 0..n {
+        let k = r.le(1)?;
+        let mut v = vec![];
+        for _ in 0..k {
+            v.push(r.take(digest)?.to_vec());
+        }
+        out.push(v);
+    }
+    if r.p != paths.len() {
+        return None;
+    }
+    Some(out)
+}
+
+pub fn nodes_bytes(nodes: &[Vec<Vec<u8>>]) -> Vec<u8> {
+    let mut o = vec![nodes.len() as u8];
+    for v in nodes {
+        o.push(v.len() as u8);
+        for d in v {
+            o.extend_from_slice(d);
+        }
+    }
+    o
+}
+
+/// structural mutants of the node vectors of one batch Merkle proof, every count consistent with the data
+pub fn nodes_mutants(paths: &[u8], digest: usize) -> Vec<(String, Vec<u8>)> {
+    let mut out: Vec<(String, Vec<u8>)> = vec![];
+    let nodes = match nodes_parse(paths, digest) {
+        Some(n) => n,
+        None => return out,
+    };
+    let nv = nodes.len();
+    let mut ks: Vec<usize> = vec![0, 1, 2, nv / 2, nv.saturating_sub(2), nv.saturating_sub(1)];
+    ks.retain(|k| *k < nv);
+    ks.sort_unstable();
+    ks.dedup();
+    for &k in &ks {
+        if !nodes[k].is_empty() {
+            let mut m = nodes.clone();
+            m[k].pop();
+            out.push((format!("vec{}-drop-last-node", if k + 1 == nv { "L".into() } else { k.to_string() }), nodes_bytes(&m)));
+            let mut m = nodes.clone();
+            m[k].remove(0);
+            out.push(("vec-drop-first-node".into(), nodes_bytes(&m)));
+            let mut m = nodes.clone();
+            let d = m[k][0].clone();
+            m[k].push(d);
+            out.push(("vec-extra-node".into(), nodes_bytes(&m)));
+            let mut m = nodes.clone();
+            m[k].clear();
+            out.push(("vec-emptied".into(), nodes_bytes(&m)));
+            if nodes[k].len() > 1 {
+                let mut m = nodes.clone();
+                m[k].swap(0, 1);
+                out.push(("vec-swap-nodes".into(), nodes_bytes(&m)));
+            }
+            let mut m = nodes.clone();
+            let l = m[k][0].len();
+            m[k][0] = vec![0u8; l];
+            out.push(("node-zero".into(), nodes_bytes(&m)));
+        }
+        let mut m = nodes.clone();
+        m.remove(k);
+        out.push(("drop-vec".into(), nodes_bytes(&m)));
+        let mut m = nodes.clone();
+        m.insert(k, vec![]);
+        out.push(("extra-empty-vec".into(), nodes_bytes(&m)));
+    }
+    if nv > 1 {
+        let mut m = nodes.clone();
+        m.swap(0, nv - 1);
+        out.push(("swap-vecs".into(), nodes_bytes(&m)));
+    }
+    out.push(("no-vecs".into(), vec![0u8]));
+    out.push(("all-vecs-empty".into(), nodes_bytes(&vec![vec![]; nv])));
+    let mut m = nodes.clone();
+    m.push(nodes.last().cloned().unwrap_or_default());
+    out.push(("dup-last-vec".into(), nodes_bytes(&m)));
+    out
+}
+
+/// structural mutants of a block of fixed-size records (rows of elements, digests): record dropped / duplicated /
+/// swapped, patterns, values at the modulus boundary
+pub fn records_mutants(data: &[u8], rec: usize, elem: usize, modulus: u128) -> Vec<(String, Vec<u8>)> {
+    let mut out: Vec<(String, Vec<u8>)> = vec![];
+    if rec == 0 || data.len() < rec {
+        return out;
+    }
+    let n = data.len() / rec;
+    out.push(("drop-last-record".into(), data[..data.len() - rec].to_vec()));
+    out.push(("drop-first-record".into(), data[rec..].to_vec()));
+    let mut m = data.to_vec();
+    m.extend_from_slice(&data[data.len() - rec..]);
+    out.push(("dup-last-record".into(), m));
+    if n > 1 {
+        let mut m = data.to_vec();
+        for i in 0..rec {
+            m.swap(i, (n - 1) * rec + i);
+        }
+        out.push(("swap-records".into(), m));
+        let mut m = data.to_vec();
+        for k in 1..n {
+            for i in 0..rec {
+                m[k * rec + i] = data[i];
+            }
+        }
+        out.push(("all-records-equal".into(), m));
+    }
+    out.push(("drop-last-byte".into(), data[..data.len() - 1].to_vec()));
+    out.push(("extra-byte".into(), [data, &[0u8][..]].concat()));
+    if elem > 0 && elem <= rec {
+        out.push(("drop-last-element".into(), data[..data.len() - elem].to_vec()));
+        out.push(("extra-element".into(), [data, &vec![0u8; elem][..]].concat()));
+    }
+    out.push(("all-zero".into(), vec![0u8; data.len()]));
+    out.push(("all-ff".into(), vec![0xffu8; data.len()]));
+    let alt: Vec<u8> = (0..data.len()).map(|i| if (i / elem.max(1)) % 2 == 0 { data[i % rec.min(data.len())] } else { 0 }).collect();
+    out.push(("alternating-zero".into(), alt));
+    let mut m = vec![0u8; data.len()];
+    m[..elem.min(data.len())].copy_from_slice(&data[..elem.min(data.len())]);
+    out.push(("single-nonzero".into(), m));
+    out.push(("empty".into(), vec![]));
+    // values at the modulus boundary in the first, an interior and the last element
+    if elem == 8 || elem == 16 {
+        let ne = data.len() / elem;
+        for (nm, v) in [("M-1", modulus - 1), ("M", modulus), ("M+1", modulus + 1), ("maxword", if elem == 8 { u64::MAX as u128 } else { u128::MAX }), ("one", 1), ("2^32", 1u128 << 32), ("2^63", 1u128 << 63)] {
+            for pos in [0usize, ne / 2, ne.saturating_sub(1)] {
+                let mut m = data.to_vec();
+                m[pos * elem..(pos + 1) * elem].copy_from_slice(&v.to_le_bytes()[..elem]);
+                out.push((format!("element={}", nm), m));
+            }
+        }
+    }
+    out
+}
+
 // ------------------------------------------------------------------------------------ execution
 fn panic_loc(info: &str) -> String {
     // "<file>:<line> <message>" -> "<file relative to the repository>:<line>"
@@ -647,20 +1003,15 @@ fn run_case(bytes: &[u8], vb: Option<&Base>, mode: &str) -> CaseOut {
     let shape_ok = shape_matches(proof.trace_info(), &vb.desc);
     // ---- the AIR constructor on the proof's trace info and options (what verify() does after the
     // field and options checks); only meaningful when the field matches
-    let acc = match mode {
-        "p" => AcceptableOptions::MinProvenSecurity(0),
-        "o" => AcceptableOptions::OptionSet(vec![vb.opts.to_options()]),
-        _ => AcceptableOptions::MinConjecturedSecurity(0),
-    };
+    let acc = acceptable(mode, vb, &proof);
     let field_ok = proof.context.field_modulus_bytes() == modulus_bytes(field).as_slice();
-    let opts_ok = mode != "o" || *proof.options() == vb.opts.to_options();
     // verify() refuses options with at least as many queries as LDE domain points before it builds the AIR
     let queries_ok = proof.options().num_queries() < proof.lde_domain_size();
-    if field_ok && opts_ok && queries_ok {
-        // the security level is computed before the AIR is built; a panic there must not be
-        // attributed to the AIR constructor, so the constructor is only probed when it returns
-        let sec = guarded(|| acc.validate::<Blake3_256<f64::BaseElement>>(&proof));
-        if matches!(sec, Ok(Ok(()))) {
+    if field_ok && queries_ok {
+        // the acceptance policy is applied before the AIR is built; a panic there must not be attributed to
+        // the AIR constructor, so the constructor is only probed when the policy accepts
+        let sec = guarded(|| dispatch!(field, hash, validate_g, (&acc, &proof)));
+        if matches!(sec, Ok(true)) {
             let r = guarded(|| dispatch!(field, hash, airnew_g, (&vb.desc, &vb.pubs, &proof)));
             if let Err(info) = r {
                 o.front = "airnew".into();
@@ -753,7 +1104,70 @@ fn exec_mut(t: &[&str]) -> Outcome {
     if let Err(e) = apply_edits(&mut bytes, t[5]) {
         return Outcome::ok("bad-op");
     }
-    into_outcome(run_case(&bytes, vb.as_deref(), t[4]), true)
+    let mut c = run_case(&bytes, vb.as_deref(), t[4]);
+    // (HARDENING 8, 6) a sample of the cases additionally goes through the other `ByteReader`s the library offers
+    // (`std::io::Cursor`, `ReadAdapter` over 1-, 3- and 300-byte reads), and is followed by a valid proof in the
+    // same process (nothing a failed case leaves behind may change the next verdict)
+    let h = bytes.iter().fold(0xcbf29ce484222325u64, |h, b| (h ^ *b as u64).wrapping_mul(0x100000001b3));
+    if h % 8 == 0 {
+        other_readers(&bytes, &mut c);
+    }
+    if h % 64 == 1 && !b.cfg.lenient {
+        let again = run_case(&b.bytes, Some(&b), "c");
+        if again.parse != "ok" || again.front != "pass" || again.deep != "ok" {
+            c.fails.push(("c06.state".into(), format!("the valid proof of {} is judged {} {} {} after this case", b.cfg.name, again.parse, again.front, again.deep)));
+        }
+    }
+    into_outcome(c, true)
+}
+
+struct Chunked<'a> {
+    data: &'a [u8],
+    pos: usize,
+    chunk: usize,
+}
+
+impl<'a> std::io::Read for Chunked<'a> {
+    fn read(&mut self, buf: &mut [u8]) -> std::io::Result<usize> {
+        let n = self.chunk.min(buf.len()).min(self.data.len() - self.pos);
+        buf[..n].copy_from_slice(&self.data[self.pos..self.pos + n]);
+        self.pos += n;
+        Ok(n)
+    }
+}
+
+fn class_of(r: &Result<Result<Proof, DeserializationError>, String>) -> String {
+    match r {
+        Err(_) => "panic".into(),
+        Ok(Err(DeserializationError::UnexpectedEOF)) => "eof".into(),
+        Ok(Err(_)) => "err".into(),
+        Ok(Ok(_)) => "ok".into(),
+    }
+}
+
+fn other_readers(bytes: &[u8], c: &mut CaseOut) {
+    use winter_utils::{Deserializable, ReadAdapter};
+    let lim = alloc_limit(bytes.len());
+    let mut run = |name: &str, f: &mut dyn FnMut() -> Result<Proof, DeserializationError>| {
+        let (r, growth) = measured(|| guarded(|| f()));
+        let cl = class_of(&r);
+        if let Err(info) = &r {
+            c.fails.push((format!("c06.parse.panic@{}", panic_loc(info)), format!("Proof::read_from over {} panicked: {}; input {}", name, info, short_hex(bytes))));
+        } else if cl != c.parse {
+            c.fails.push(("c06.parse.reader-diff".into(), format!("Proof::read_from over {} ends in {}, over SliceReader in {}; input {}", name, cl, c.parse, short_hex(bytes))));
+        }
+        if growth > lim {
+            c.fails.push(("c06.parse.alloc".into(), format!("parsing {} bytes over {} requested {} bytes of heap; input {}", bytes.len(), name, growth, short_hex(bytes))));
+        }
+    };
+    run("Cursor", &mut || Proof::read_from(&mut std::io::Cursor::new(bytes)));
+    for chunk in [1usize, 3, 300] {
+        run(&format!("ReadAdapter({})", chunk), &mut || {
+            let mut src = Chunked { data: bytes, pos: 0, chunk };
+            let mut ad = ReadAdapter::new(&mut src);
+            Proof::read_from(&mut ad)
+        });
+    }
 }
 
 fn exec_raw(t: &[&str]) -> Outcome {
@@ -946,6 +1360,158 @@ fn gen_fri(emit: &mut dyn FnMut(String), rng: &mut Rng, tier: Tier) {
     }
 }
 
+// ------------------------------------------------------------------------------------ stand-alone Merkle openings
+fn mrk_g<H: ElementHasher<BaseField = f64::BaseElement>>(log_leaves: u32, idx: &[usize], depth_delta: i64, edits: &str) -> Outcome {
+    use winter_crypto::{BatchMerkleProof, MerkleTree};
+    use winter_utils::SliceReader;
+    let n = 1usize << log_leaves;
+    let leaves: Vec<H::Digest> = (0..n as u64).map(|i| H::hash(&i.to_le_bytes())).collect();
+    let tree = match MerkleTree::<H>::new(leaves.clone()) {
+        Ok(t) => t,
+        Err(_) => return Outcome::ok("bad-base"),
+    };
+    let honest = match tree.prove_batch(idx) {
+        Ok(p) => p,
+        Err(_) => return Outcome::ok("bad-base"),
+    };
+    let mut bytes = honest.serialize_nodes();
+    if apply_edits(&mut bytes, edits).is_err() {
+        return Outcome::ok("bad-op");
+    }
+    let opened: Vec<H::Digest> = idx.iter().map(|i| leaves[*i]).collect();
+    let depth = (log_leaves as i64 + depth_delta).clamp(0, 255) as u8;
+    let lim = alloc_limit(bytes.len());
+    let mut o = Outcome::default();
+    let (r, growth) = measured(|| {
+        guarded(|| -> String {
+            let mut reader = SliceReader::new(&bytes);
+            let proof = match BatchMerkleProof::<H>::deserialize(&mut reader, opened.clone(), depth) {
+                Ok(p) => p,
+                Err(DeserializationError::UnexpectedEOF) => return "eof".into(),
+                Err(_) => return "err".into(),
+            };
+            let a = match proof.get_root(idx) {
+                Ok(r) => {
+                    if r == *tree.root() {
+                        "root"
+                    } else {
+                        "other"
+                    }
+                },
+                Err(_) => "e",
+            };
+            let b = if MerkleTree::<H>::verify_batch(tree.root(), idx, &proof).is_ok() { "acc" } else { "rej" };
+            let c = match proof.into_paths(idx) {
+                Ok(p) => format!("paths{}", p.len()),
+                Err(_) => "e".to_string(),
+            };
+            format!("ok {} {} {}", a, b, c)
+        })
+    });
+    if growth > lim {
+        o = o.fail("c06.merkle.alloc", format!("opening of {} bytes requested {} heap bytes; input {}", bytes.len(), growth, short_hex(&bytes)));
+    }
+    match r {
+        Ok(s) => o.out = s,
+        Err(info) => {
+            o.out = "panic".into();
+            o = o.fail(format!("c06.merkle.panic@{}", panic_loc(&info)), format!("batch Merkle opening panicked: {}; node bytes {}", info, short_hex(&bytes)));
+        },
+    }
+    o
+}
+
+fn exec_mrk(t: &[&str]) -> Outcome {
+    // x <label> <hash> <log2 leaves> <indexes> <depth delta> <edits>
+    if t.len() != 7 {
+        return Outcome::ok("bad-op");
+    }
+    let log_leaves = match t[3].parse::<u32>() {
+        Ok(v) if (1..=10).contains(&v) => v,
+        _ => return Outcome::ok("bad-op"),
+    };
+    let idx: Vec<usize> = match t[4].split('.').map(|x| x.parse::<usize>()).collect::<Result<Vec<_>, _>>() {
+        Ok(v) if !v.is_empty() && v.iter().all(|i| *i < (1 << log_leaves)) => v,
+        _ => return Outcome::ok("bad-op"),
+    };
+    let dd = t[5].parse::<i64>().unwrap_or(0);
+    match t[2] {
+        "blake3_256" => mrk_g::<Blake3_256<f64::BaseElement>>(log_leaves, &idx, dd, t[6]),
+        "rp64_256" => mrk_g::<Rp64_256>(log_leaves, &idx, dd, t[6]),
+        "blake3_192" => mrk_g::<Blake3_192<f64::BaseElement>>(log_leaves, &idx, dd, t[6]),
+        _ => Outcome::ok("bad-op"),
+    }
+}
+
+fn mrk_nodes<H: ElementHasher<BaseField = f64::BaseElement>>(log_leaves: u32, idx: &[usize]) -> Option<Vec<u8>> {
+    use winter_crypto::MerkleTree;
+    let n = 1usize << log_leaves;
+    let leaves: Vec<H::Digest> = (0..n as u64).map(|i| H::hash(&i.to_le_bytes())).collect();
+    let tree = MerkleTree::<H>::new(leaves).ok()?;
+    Some(tree.prove_batch(idx).ok()?.serialize_nodes())
+}
+
+fn gen_mrk(emit: &mut dyn FnMut(String), rng: &mut Rng, tier: Tier) {
+    let sets: Vec<(u32, Vec<usize>)> = vec![
+        (1, vec![0]),
+        (1, vec![0, 1]),
+        (3, vec![0]),
+        (3, vec![7]),
+        (3, vec![2, 3]),
+        (3, vec![1, 6]),
+        (3, vec![0, 1, 2, 3, 4, 5, 6, 7]),
+        (4, vec![3, 4, 9]),
+        (4, vec![0, 15]),
+        (5, vec![5, 6, 7, 20, 21, 31]),
+        (5, vec![30, 2, 17]),
+        (8, vec![0, 1, 128, 200, 255]),
+    ];
+    for (hn, dg) in [("blake3_256", 32usize), ("rp64_256", 32), ("blake3_192", 24)] {
+        for (ll, idx) in &sets {
+            let nodes = match hn {
+                "blake3_256" => mrk_nodes::<Blake3_256<f64::BaseElement>>(*ll, idx),
+                "rp64_256" => mrk_nodes::<Rp64_256>(*ll, idx),
+                _ => mrk_nodes::<Blake3_192<f64::BaseElement>>(*ll, idx),
+            };
+            let nodes = match nodes {
+                Some(n) => n,
+                None => continue,
+            };
+            let is: Vec<String> = idx.iter().map(|i| i.to_string()).collect();
+            let pre = format!("{} {} {}", hn, ll, is.join("."));
+            let whole = |new: &[u8]| format!("r0:{}:{}", nodes.len(), hex(new));
+            emit(format!("mrk x valid {} 0 -", pre));
+            for dd in [-(*ll as i64), -1, 1, 2, 59, 60, 61, 62, 63, 64, 200] {
+                emit(format!("mrk x depth {} {} -", pre, dd));
+            }
+            for (nm, nb) in nodes_mutants(&nodes, dg) {
+                emit(format!("mrk x nodes:{} {} 0 {}", nm, pre, whole(&nb)));
+                if nm.contains("drop-last-node") {
+                    emit(format!("mrk x nodes:{} {} 1 {}", nm, pre, whole(&nb)));
+                    emit(format!("mrk x nodes:{} {} -1 {}", nm, pre, whole(&nb)));
+                }
+            }
+            for k in 0..nodes.len() {
+                emit(format!("mrk x trunc {} 0 t{}", pre, k));
+            }
+            let boundary = [0u8, 1, 0x7f, 0x80, 0xfe, 0xff];
+            for off in 0..nodes.len() {
+                let structural = off < 2 || tier == Tier::Thorough;
+                if structural {
+                    for v in boundary {
+                        emit(format!("mrk x byte {} 0 s{}:{:02x}", pre, off, v));
+                    }
+                } else if off % 7 == 0 {
+                    emit(format!("mrk x byte {} 0 s{}:{:02x}", pre, off, *rng.pick(&boundary)));
+                }
+            }
+            emit(format!("mrk x append {} 0 a00", pre));
+            emit(format!("mrk x append {} 0 a{}", pre, hex(&vec![0xffu8; dg + 1])));
+            emit(format!("mrk x fill {} 0 f0:{}:{}:ff", pre, nodes.len(), 1 + 255 * (1 + 255 * dg)));
+        }
+    }
+}
+
 // ------------------------------------------------------------------------------------ generation
 fn le_hex(v: u128, len: usize) -> String {
     let mut s = String::new();
@@ -958,6 +1524,8 @@ fn le_hex(v: u128, len: usize) -> String {
 struct Gen<'a> {
     emit: &'a mut dyn FnMut(String),
     raw_budget: usize,
+    /// number of mutants emitted per family (label), to rotate the acceptance policies inside every family
+    fam: HashMap<String, usize>,
 }
 
 impl<'a> Gen<'a> {
@@ -972,6 +1540,527 @@ impl<'a> Gen<'a> {
             }
         }
         (self.emit)(format!("mut x {} {} {} {} {}", label, b.cfg.name, vcfg, mode, if edits.is_empty() { "-" } else { edits }));
+    }
+}
+
+impl<'a> Gen<'a> {
+    /// a mutant given by its bytes: emitted under the model-compared policy and under the next policy of its
+    /// family's rotation (the first member of a family runs under every policy)
+    fn mutant(&mut self, label: &str, b: &Base, vcfg: &str, new: &[u8], raw: bool) {
+        let old = &b.bytes;
+        let mut pre = 0;
+        while pre < old.len() && pre < new.len() && old[pre] == new[pre] {
+            pre += 1;
+        }
+        let mut suf = 0;
+        while suf < old.len() - pre && suf < new.len() - pre && old[old.len() - 1 - suf] == new[new.len() - 1 - suf] {
+            suf += 1;
+        }
+        let mid = &new[pre..new.len() - suf];
+        let edit = if mid.len() < 600 {
+            format!("r{}:{}:{}", pre, old.len() - pre - suf, hex(mid))
+        } else {
+            // long constant runs are written as fill edits
+            let mut parts = vec![format!("d{}:{}", pre, old.len() - pre - suf)];
+            let mut off = pre;
+            let mut i = 0;
+            let mut lit_start = 0;
+            while i < mid.len() {
+                let mut j = i;
+                while j < mid.len() && mid[j] == mid[i] {
+                    j += 1;
+                }
+                if j - i >= 64 {
+                    if lit_start < i {
+                        parts.push(format!("i{}:{}", off, hex(&mid[lit_start..i])));
+                        off += i - lit_start;
+                    }
+                    parts.push(format!("f{}:0:{}:{:02x}", off, j - i, mid[i]));
+                    off += j - i;
+                    lit_start = j;
+                }
+                i = j;
+            }
+            if lit_start < mid.len() {
+                parts.push(format!("i{}:{}", off, hex(&mid[lit_start..])));
+            }
+            parts.join(",")
+        };
+        self.edit(label, b, vcfg, &edit, raw);
+    }
+    fn edit(&mut self, label: &str, b: &Base, vcfg: &str, edit: &str, raw: bool) {
+        let k = *self.fam.get(label).unwrap_or(&0);
+        self.fam.insert(label.to_string(), k + 1);
+        self.case(label, b, vcfg, "c", edit, raw);
+        if k == 0 {
+            for m in &POLICIES[1..] {
+                self.case(label, b, vcfg, m, edit, false);
+            }
+        } else {
+            self.case(label, b, vcfg, POLICIES[1 + k % (POLICIES.len() - 1)], edit, false);
+        }
+    }
+}
+
+fn elem_bytes(f: FieldId) -> usize {
+    match f {
+        FieldId::F128 => 16,
+        _ => 8,
+    }
+}
+
+/// consistent structural mutants (HARDENING 3, 4, 5, 7): every enclosing length / count prefix is rewritten
+fn gen_struct(g: &mut Gen, rng: &mut Rng, b: &Base, tier: Tier, others: &[Arc<Base>]) {
+    let name = b.cfg.name;
+    let sp = match SP::parse(&b.bytes) {
+        Some(sp) if sp.to_bytes() == b.bytes => sp,
+        _ => {
+            (g.emit)(format!("mut x struct-failed {} - c -", name));
+            return;
+        },
+    };
+    let dg = b.cfg.hash.digest_bytes();
+    let eb = elem_bytes(b.cfg.field);
+    let ee = eb * b.opts.ext as usize;
+    let m = b.cfg.field.modulus();
+    let main_w = sp.ti[0] as usize;
+    let aux_w = sp.ti[1] as usize;
+    let folding = b.opts.folding;
+    // --- Merkle node vectors of every opening
+    let mut sets: Vec<(String, Vec<u8>)> = vec![];
+    for (i, q) in sp.tq.iter().enumerate() {
+        sets.push((format!("tq{}", i), q.paths.clone()));
+    }
+    sets.push(("cq".into(), sp.cq.paths.clone()));
+    for (i, q) in sp.layers.iter().enumerate() {
+        sets.push((format!("fri{}", i), q.paths.clone()));
+    }
+    for (which, paths) in &sets {
+        for (nm, np) in nodes_mutants(paths, dg) {
+            let mut x = sp.clone();
+            match which.as_str() {
+                "cq" => x.cq.paths = np,
+                w if w.starts_with("tq") => x.tq[w[2..].parse::<usize>().unwrap()].paths = np,
+                w => x.layers[w[3..].parse::<usize>().unwrap()].paths = np,
+            }
+            let fam = which.trim_end_matches(|c: char| c.is_ascii_digit());
+            g.mutant(&format!("merkle:{}:{}", fam, nm), b, name, &x.to_bytes(), true);
+        }
+        for n in [65536usize, 70000] {
+            // (5) a paths block beyond the 16-bit range: 255 vectors of 255 digests hold at most 255*255*dg bytes
+            let per = 1 + 255 * dg;
+            let nvec = (n / per + 1).min(255);
+            let mut blk = vec![nvec as u8];
+            for _ in 0..nvec {
+                blk.push(255);
+                blk.extend(std::iter::repeat(0x11u8).take(255 * dg));
+            }
+            let mut x = sp.clone();
+            match which.as_str() {
+                "cq" => x.cq.paths = blk,
+                w if w.starts_with("tq") => x.tq[w[2..].parse::<usize>().unwrap()].paths = blk,
+                w => x.layers[w[3..].parse::<usize>().unwrap()].paths = blk,
+            }
+            if which == "cq" || which == "fri0" {
+                g.mutant("oversize:paths", b, name, &x.to_bytes(), false);
+            }
+        }
+    }
+    // --- value tables: rows of the queried states / evaluations
+    let ncols_cq = if sp.uniq > 0 { sp.cq.values.len() / (sp.uniq as usize * ee).max(1) } else { 0 };
+    {
+        for (nm, nv) in records_mutants(&sp.tq[0].values, main_w * eb, eb, m) {
+            let mut x = sp.clone();
+            x.tq[0].values = nv;
+            g.mutant(&format!("values:tq:{}", nm), b, name, &x.to_bytes(), true);
+        }
+        if sp.tq.len() > 1 {
+            for (nm, nv) in records_mutants(&sp.tq[1].values, aux_w * ee, ee, m) {
+                let mut x = sp.clone();
+                x.tq[1].values = nv;
+                g.mutant(&format!("values:tq-aux:{}", nm), b, name, &x.to_bytes(), true);
+            }
+        }
+        for (nm, nv) in records_mutants(&sp.cq.values, ncols_cq * ee, ee, m) {
+            let mut x = sp.clone();
+            x.cq.values = nv;
+            g.mutant(&format!("values:cq:{}", nm), b, name, &x.to_bytes(), true);
+        }
+        // one query less / more in EVERY query set, the count byte following
+        if sp.uniq > 1 {
+            let mut x = sp.clone();
+            x.uniq -= 1;
+            let l = x.tq[0].values.len() - main_w * eb;
+            x.tq[0].values.truncate(l);
+            if x.tq.len() > 1 {
+                let l = x.tq[1].values.len() - aux_w * ee;
+                x.tq[1].values.truncate(l);
+            }
+            let l = x.cq.values.len() - ncols_cq * ee;
+            x.cq.values.truncate(l);
+            g.mutant("values:one-query-less", b, name, &x.to_bytes(), true);
+        }
+        {
+            let mut x = sp.clone();
+            x.uniq += 1;
+            let r = x.tq[0].values[..main_w * eb].to_vec();
+            x.tq[0].values.extend(r);
+            if x.tq.len() > 1 {
+                let r = x.tq[1].values[..aux_w * ee].to_vec();
+                x.tq[1].values.extend(r);
+            }
+            let r = x.cq.values[..(ncols_cq * ee).min(x.cq.values.len())].to_vec();
+            x.cq.values.extend(r);
+            g.mutant("values:one-query-more", b, name, &x.to_bytes(), true);
+        }
+        // 255 queries of everything (table limits), consistent
+        {
+            let mut x = sp.clone();
+            x.uniq = 255;
+            x.opts[0] = 255;
+            x.tq[0].values = sp.tq[0].values[..main_w * eb].repeat(255);
+            if x.tq.len() > 1 {
+                x.tq[1].values = sp.tq[1].values[..aux_w * ee].repeat(255);
+            }
+            x.cq.values = sp.cq.values[..(ncols_cq * ee).min(sp.cq.values.len())].repeat(255);
+            g.mutant("values:255-queries", b, name, &x.to_bytes(), false);
+        }
+        for n in [65536usize, 70000] {
+            let mut x = sp.clone();
+            x.cq.values = vec![0u8; n];
+            g.mutant("oversize:values", b, name, &x.to_bytes(), false);
+        }
+    }
+    // --- commitments: digests
+    for (nm, nv) in records_mutants(&sp.commitments, dg, 0, m) {
+        let mut x = sp.clone();
+        x.commitments = nv;
+        g.mutant(&format!("commitments:{}", nm), b, name, &x.to_bytes(), true);
+    }
+    for n in [255usize, 256, 65535] {
+        let mut x = sp.clone();
+        x.commitments = vec![0x22u8; n / dg * dg];
+        g.mutant("oversize:commitments", b, name, &x.to_bytes(), false);
+        x.commitments = vec![0x22u8; n];
+        g.mutant("oversize:commitments", b, name, &x.to_bytes(), false);
+    }
+    // --- out-of-domain frame
+    for (nm, nv) in records_mutants(&sp.ood_trace[1.min(sp.ood_trace.len())..], 2 * ee, ee, m) {
+        let mut x = sp.clone();
+        x.ood_trace = [&sp.ood_trace[..1.min(sp.ood_trace.len())], &nv[..]].concat();
+        g.mutant(&format!("ood:trace:{}", nm), b, name, &x.to_bytes(), true);
+    }
+    for (nm, nv) in records_mutants(&sp.ood_evals, ee, ee, m) {
+        let mut x = sp.clone();
+        x.ood_evals = nv;
+        g.mutant(&format!("ood:evals:{}", nm), b, name, &x.to_bytes(), true);
+    }
+    {
+        // Lagrange kernel frames of every small row count, consistent; also with trailing bytes
+        let src = if sp.ood_lagrange.len() > 1 { sp.ood_lagrange[1..].to_vec() } else { sp.ood_trace[1.min(sp.ood_trace.len())..].to_vec() };
+        for rows in 0..=8usize {
+            let mut blk = vec![rows as u8];
+            for i in 0..rows {
+                blk.extend_from_slice(&src[(i * ee) % src.len().max(1)..][..ee.min(src.len())]);
+            }
+            let mut x = sp.clone();
+            x.ood_lagrange = blk.clone();
+            g.mutant("ood:lagrange-rows", b, name, &x.to_bytes(), true);
+            blk.push(0);
+            x.ood_lagrange = blk;
+            g.mutant("ood:lagrange-trailing", b, name, &x.to_bytes(), true);
+        }
+        let mut x = sp.clone();
+        x.ood_lagrange = vec![];
+        g.mutant("ood:lagrange-empty-block", b, name, &x.to_bytes(), true);
+    }
+    for n in [255usize, 256, 65535] {
+        let mut x = sp.clone();
+        x.ood_evals = vec![0u8; n / ee * ee];
+        g.mutant("oversize:ood", b, name, &x.to_bytes(), false);
+        let mut x = sp.clone();
+        x.ood_trace = [&[2u8][..], &vec![0u8; (n - 1) / (2 * ee) * (2 * ee)][..]].concat();
+        g.mutant("oversize:ood", b, name, &x.to_bytes(), false);
+        let mut x = sp.clone();
+        x.ood_lagrange = [&[255u8][..], &vec![0u8; (255 * ee).min(n - 1)][..]].concat();
+        g.mutant("oversize:ood", b, name, &x.to_bytes(), false);
+    }
+    // --- FRI layers and remainder
+    for (i, l) in sp.layers.iter().enumerate() {
+        for (nm, nv) in records_mutants(&l.values, folding * ee, ee, m) {
+            let mut x = sp.clone();
+            x.layers[i].values = nv;
+            g.mutant(&format!("fri:values:{}", nm), b, name, &x.to_bytes(), i == 0);
+        }
+    }
+    if !sp.layers.is_empty() {
+        let mut x = sp.clone();
+        x.layers[0].values = vec![0u8; 70000 / (folding * ee) * (folding * ee)];
+        g.mutant("oversize:fri-values", b, name, &x.to_bytes(), false);
+        // layer order, a layer repeated in place of another, a layer more with its commitment
+        if sp.layers.len() > 1 {
+            let mut x = sp.clone();
+            x.layers.swap(0, 1);
+            g.mutant("fri:swap-layers", b, name, &x.to_bytes(), true);
+            let mut x = sp.clone();
+            x.layers[1] = x.layers[0].clone();
+            g.mutant("fri:layer-repeated", b, name, &x.to_bytes(), true);
+        }
+        let mut x = sp.clone();
+        x.layers.pop();
+        x.commitments.truncate(sp.commitments.len().saturating_sub(dg));
+        g.mutant("fri:one-layer-less-with-root", b, name, &x.to_bytes(), true);
+        let mut x = sp.clone();
+        x.layers.push(sp.layers.last().unwrap().clone());
+        x.commitments.extend_from_slice(&sp.commitments[sp.commitments.len() - dg..]);
+        g.mutant("fri:one-layer-more-with-root", b, name, &x.to_bytes(), true);
+    }
+    for (nm, nv) in records_mutants(&sp.remainder, ee, ee, m) {
+        let mut x = sp.clone();
+        x.remainder = nv;
+        g.mutant(&format!("fri:remainder:{}", nm), b, name, &x.to_bytes(), true);
+    }
+    {
+        let r = &sp.remainder;
+        let mut variants: Vec<(&str, Vec<u8>)> = vec![("halved", r[..r.len() / 2].to_vec()), ("doubled-zero-high", [&r[..], &vec![0u8; r.len()][..]].concat()), ("doubled-copy", [&r[..], &r[..]].concat())];
+        let mut z = r.clone();
+        for b in z.iter_mut().skip(r.len() / 2) {
+            *b = 0;
+        }
+        variants.push(("zero-high-half", z));
+        let mut z = r.clone();
+        let l = z.len();
+        for b in z.iter_mut().skip(l.saturating_sub(ee)) {
+            *b = 0;
+        }
+        variants.push(("zero-top-coefficient", z));
+        variants.push(("one-element", r[..ee.min(r.len())].to_vec()));
+        variants.push(("65535-bytes", vec![0u8; 65535]));
+        variants.push(("65535-bytes-whole-elements", vec![0u8; 65535 / ee * ee]));
+        variants.push(("4096-elements", vec![0u8; (4096 * ee).min(65535 / ee * ee)]));
+        for (nm, nv) in variants {
+            let mut x = sp.clone();
+            x.remainder = nv;
+            g.mutant(&format!("fri:remainder:{}", nm), b, name, &x.to_bytes(), true);
+        }
+    }
+    // --- trace meta data of every prefix width, modulus, GKR proof, nonce
+    for n in [1usize, 6, 7, 8, 9, 15, 16, 17, 255, 256, 257, 65534, 65535] {
+        for fill in [0u8, 0xff, 0x5a] {
+            let mut x = sp.clone();
+            x.meta = vec![fill; n];
+            g.mutant("meta", b, name, &x.to_bytes(), n < 300);
+        }
+    }
+    {
+        let mods: Vec<Vec<u8>> = vec![
+            modulus_bytes(FieldId::F62),
+            modulus_bytes(FieldId::F64),
+            modulus_bytes(FieldId::F128),
+            (m - 1).to_le_bytes()[..eb].to_vec(),
+            (m + 1).to_le_bytes()[..eb].to_vec(),
+            m.to_le_bytes()[..eb - 1].to_vec(),
+            [&m.to_le_bytes()[..eb], &[0u8][..]].concat(),
+            vec![0u8; eb],
+            vec![0xffu8; eb],
+            vec![1u8],
+            vec![0x11u8; 254],
+            vec![0x11u8; 255],
+            m.to_le_bytes().to_vec(),
+        ];
+        for md in mods {
+            let mut x = sp.clone();
+            x.modulus = md;
+            g.mutant("modulus", b, name, &x.to_bytes(), true);
+        }
+    }
+    {
+        let logn = sp.ti[3] as u64;
+        let mut gk: Vec<Option<Vec<u8>>> = vec![None, Some(vec![]), Some(vec![0]), Some(vec![0xff; 9]), Some(vec![0x5a; 255]), Some(vec![0x5a; 256]), Some(vec![0x5a; 65535]), Some(vec![0x5a; 65536]), Some(vec![0x5a; 65537]), Some(vec![0x5a; 70000]), Some(vec![0x5a; 1 << 21])];
+        for v in [0u64, 1, logn.saturating_sub(1), logn, logn + 1, 63, 64, 65, 127, 128, 1 << 32, u64::MAX] {
+            gk.push(Some(vint(v)));
+            gk.push(Some([&vint(v)[..], &[0u8][..]].concat()));
+        }
+        for v in gk {
+            let mut x = sp.clone();
+            let small = v.as_ref().map(|v| v.len()).unwrap_or(0) < 300;
+            x.gkr = v;
+            g.mutant("gkr-consistent", b, name, &x.to_bytes(), small);
+        }
+    }
+    for v in [0u128, 1, m - 1, m, m + 1, u64::MAX as u128, 1 << 32, (1 << 32) - 1, 1 << 63] {
+        let mut x = sp.clone();
+        x.nonce = (v as u64).to_le_bytes();
+        g.mutant("nonce", b, name, &x.to_bytes(), true);
+    }
+    for v in 0..=255u8 {
+        if v < 8 || v > 56 || v % 8 == 0 {
+            let mut x = sp.clone();
+            x.partitions = v;
+            g.mutant("partitions", b, name, &x.to_bytes(), true);
+        }
+    }
+    // --- (coordinator) structurally valid proofs assembled from the components of two proofs
+    for ob in others {
+        if ob.cfg.name == name {
+            continue;
+        }
+        let op = match SP::parse(&ob.bytes) {
+            Some(x) => x,
+            None => continue,
+        };
+        let same_shape = op.tq.len() == sp.tq.len();
+        let combos: Vec<u32> = if same_shape && ob.cfg.field == b.cfg.field { (1..255).collect() } else { vec![1, 2, 4, 8, 16, 32, 64, 128, 0x7f, 0xfe, 0x55, 0xaa] };
+        for mask in combos {
+            if !(same_shape && ob.cfg.hash == b.cfg.hash) && tier == Tier::Quick && mask.count_ones() > 1 && rng.below(3) != 0 {
+                continue;
+            }
+            let mut x = sp.clone();
+            if mask & 1 != 0 {
+                x.ti = op.ti;
+                x.meta = op.meta.clone();
+                x.modulus = op.modulus.clone();
+                x.opts = op.opts;
+                // the number of query sets follows the trace info
+                if x.ti[1] > 0 && x.tq.len() == 1 {
+                    x.tq.push(x.tq[0].clone());
+                }
+                if x.ti[1] == 0 {
+                    x.tq.truncate(1);
+                }
+            }
+            if mask & 2 != 0 {
+                x.commitments = op.commitments.clone();
+            }
+            if mask & 4 != 0 {
+                for i in 0..x.tq.len().min(op.tq.len()) {
+                    x.tq[i] = op.tq[i].clone();
+                }
+                x.uniq = op.uniq;
+            }
+            if mask & 8 != 0 {
+                x.cq = op.cq.clone();
+            }
+            if mask & 16 != 0 {
+                x.ood_trace = op.ood_trace.clone();
+                x.ood_lagrange = op.ood_lagrange.clone();
+                x.ood_evals = op.ood_evals.clone();
+            }
+            if mask & 32 != 0 {
+                x.layers = op.layers.clone();
+            }
+            if mask & 64 != 0 {
+                x.remainder = op.remainder.clone();
+                x.partitions = op.partitions;
+            }
+            if mask & 128 != 0 {
+                x.nonce = op.nonce;
+                x.gkr = op.gkr.clone();
+            }
+            let bytes = x.to_bytes();
+            g.mutant("assembled", b, name, &bytes, bytes.len() < 2500 && (mask.count_ones() == 1 || mask % 7 == 0));
+            if mask.count_ones() <= 2 {
+                // ... and verified against the OTHER computation
+                let k = *g.fam.get("assembled-other").unwrap_or(&0);
+                g.fam.insert("assembled-other".into(), k + 1);
+                g.case("assembled-other", b, ob.cfg.name, POLICIES[k % POLICIES.len()], &format!("r0:{}:{}", b.bytes.len(), hex(&bytes)), false);
+            }
+        }
+    }
+}
+
+/// boundary values of the single-byte fields of the context (HARDENING 1: every constant the readers, the
+/// constructors, the security estimate and the query-count check compare against, and its neighbours)
+fn ctx_values(name: &str, orig: u8, lde: usize) -> Vec<u8> {
+    let mut v: Vec<usize> = match name {
+        "ti.main" => vec![0, 1, 2, 127, 128, 254, 255],
+        "ti.aux" => vec![0, 1, 2, 127, 253, 254, 255],
+        "ti.rands" => vec![0, 1, 2, 254, 255],
+        "ti.loglen" => vec![0, 1, 2, 3, 4, 5, 6, 24, 25, 26, 27, 28, 29, 30, 31, 32, 33, 39, 40, 41, 56, 57, 62, 63, 64, 65, 255],
+        "modulus.len" => vec![0, 1, 7, 8, 9, 16, 254, 255],
+        "opt.queries" => vec![0, 1, 2, 3, 4, 11, 12, 13, 15, 16, 17, 19, 20, 21, 26, 27, 39, 40, 41, 79, 80, 81, 127, 128, 254, 255, lde.saturating_sub(1), lde, lde + 1],
+        "opt.blowup" => vec![0, 1, 2, 3, 4, 8, 16, 32, 64, 127, 128, 129, 255],
+        "opt.grinding" => vec![0, 1, 2, 15, 16, 20, 31, 32, 33, 64, 255],
+        "opt.ext" => vec![0, 1, 2, 3, 4, 255],
+        "opt.folding" => vec![0, 1, 2, 3, 4, 5, 8, 15, 16, 17, 32, 255],
+        "opt.remdeg" => vec![0, 1, 2, 3, 4, 6, 7, 8, 15, 31, 63, 126, 127, 128, 254, 255],
+        "uniq" => vec![0, 1, 2, 3, 254, 255],
+        _ => vec![0, 1, 255],
+    };
+    v.push(orig as usize);
+    v.push(orig.wrapping_add(1) as usize);
+    v.push(orig.wrapping_sub(1) as usize);
+    let mut v: Vec<u8> = v.into_iter().filter(|x| *x < 256).map(|x| x as u8).collect();
+    v.sort_unstable();
+    v.dedup();
+    v
+}
+
+const CTX_FIELDS: &[&str] = &["ti.main", "ti.aux", "ti.rands", "ti.loglen", "modulus.len", "opt.queries", "opt.blowup", "opt.grinding", "opt.ext", "opt.folding", "opt.remdeg", "uniq"];
+
+/// every pair (and the security triple) of context bytes set to boundary combinations, under every policy
+fn gen_ctx_pairs(g: &mut Gen, rng: &mut Rng, b: &Base, tier: Tier, flds: &[Fld], full: bool) {
+    let name = b.cfg.name;
+    let lde = b.desc.trace_len * b.opts.blowup;
+    let f: Vec<&Fld> = CTX_FIELDS.iter().filter_map(|n| flds.iter().find(|f| f.name == *n)).collect();
+    let mut k = 0usize;
+    for i in 0..f.len() {
+        for j in i + 1..f.len() {
+            let vi = ctx_values(&f[i].name, b.bytes[f[i].off], lde);
+            let vj = ctx_values(&f[j].name, b.bytes[f[j].off], lde);
+            let both_opts = f[i].name.starts_with("opt.") && f[j].name.starts_with("opt.");
+            for a in &vi {
+                for c in &vj {
+                    if *a == b.bytes[f[i].off] && *c == b.bytes[f[j].off] {
+                        continue;
+                    }
+                    // products are sampled, dimensions are not dropped: every pair of fields, every value of each
+                    // field at least with the unchanged and the extreme values of the other
+                    let edge = |v: u8, vs: &[u8], o: u8| v == o || v == vs[0] || v == *vs.last().unwrap() || v == vs[1];
+                    let keep = full || both_opts || edge(*a, &vi, b.bytes[f[i].off]) || edge(*c, &vj, b.bytes[f[j].off]) || rng.below(8) == 0;
+                    if !keep {
+                        continue;
+                    }
+                    let e = format!("s{}:{:02x},s{}:{:02x}", f[i].off, a, f[j].off, c);
+                    k += 1;
+                    let lab = format!("ctx2:{}+{}", f[i].name, f[j].name);
+                    g.case(&lab, b, name, "c", &e, k % 4 == 0);
+                    let pol = POLICIES[1 + k % (POLICIES.len() - 1)];
+                    g.case(&lab, b, name, pol, &e, false);
+                    if both_opts && (tier == Tier::Thorough || full) {
+                        g.case(&lab, b, name, "p", &e, false);
+                        g.case(&lab, b, name, "om", &e, false);
+                    }
+                }
+            }
+        }
+    }
+    // the security estimates: (queries, blowup, grinding[, extension, trace length]) products under every policy
+    let fq = flds.iter().find(|f| f.name == "opt.queries");
+    let fb = flds.iter().find(|f| f.name == "opt.blowup");
+    let fg = flds.iter().find(|f| f.name == "opt.grinding");
+    let fx = flds.iter().find(|f| f.name == "opt.ext");
+    let fl = flds.iter().find(|f| f.name == "ti.loglen");
+    if let (Some(fq), Some(fb), Some(fg), Some(fx), Some(fl)) = (fq, fb, fg, fx, fl) {
+        for q in [1u8, 2, 3, 4, 5, 11, 12, 13, 19, 20, 21, 26, 27, 39, 40, 41, 79, 80, 81, 128, 255] {
+            for bl in [2u8, 4, 8, 16, 64, 128] {
+                for gr in [0u8, 1, 16, 31, 32] {
+                    let e0 = format!("s{}:{:02x},s{}:{:02x},s{}:{:02x}", fq.off, q, fb.off, bl, fg.off, gr);
+                    for pol in POLICIES {
+                        if full || pol.starts_with('p') || pol.starts_with('c') && rng.below(3) == 0 || rng.below(6) == 0 {
+                            g.case("ctx3:security", b, name, pol, &e0, *pol == "c" && q % 2 == 1);
+                        }
+                    }
+                    if gr == 0 || gr == 32 {
+                        for (x, l) in [(1u8, 3u8), (2, 3), (3, 3), (1, 20), (1, 28), (2, 30), (1, 29)] {
+                            let e = format!("{},s{}:{:02x},s{}:{:02x}", e0, fx.off, x, fl.off, l);
+                            k += 1;
+                            g.case("ctx5:security", b, name, ["p", "c", "p=", "c=", "p+", "c+"][k % 6], &e, false);
+                        }
+                    }
+                }
+            }
+        }
     }
 }
 
@@ -1024,7 +2113,8 @@ fn gen_for(g: &mut Gen, rng: &mut Rng, b: &Base, tier: Tier, small: bool, others
         for v in field_values(f, orig, thorough) {
             let e = format!("s{}:{}", f.off, le_hex(v, f.len));
             let label = format!("field:{}", f.name.replace(|c: char| c.is_ascii_digit(), "#"));
-            g.case(&label, b, name, "c", &e, f.len > 1 || v < 4 || v % 3 == 0 || v > 250);
+            let constant = f.len == 1 && ctx_values(&f.name, orig as u8, b.desc.trace_len * b.opts.blowup).contains(&(v as u8));
+            g.case(&label, b, name, "c", &e, f.len > 1 || v < 4 || v % 3 == 0 || v > 250 || constant);
             if v % 5 == 0 {
                 g.case(&label, b, name, if v % 2 == 0 { "p" } else { "o" }, &e, false);
             }
@@ -1173,6 +2263,9 @@ fn gen_for(g: &mut Gen, rng: &mut Rng, b: &Base, tier: Tier, small: bool, others
         let e = format!("s{}:{},s{}:{}", f1.off, le_hex(pickv(rng, f1), f1.len), f2.off, le_hex(pickv(rng, f2), f2.len));
         g.case("pair", b, name, *rng.pick(&["c", "c", "c", "p", "o"]), &e, false);
     }
+    // 5g. consistent structural mutants, context pairs (hardening)
+    gen_struct(g, rng, b, tier, others);
+    gen_ctx_pairs(g, rng, b, tier, &flds, thorough || name == "fib8" || name == "sq8rp" || name == "lag8");
     // 5f. random multi-byte damage: insertions, deletions, overwritten runs
     let multi = if thorough { 3000 } else { 300 };
     for _ in 0..multi {
@@ -1212,8 +2305,8 @@ impl Prop for P {
                 Err(e) => emit(format!("mut x base-failed {} - c -", c.name)),
             }
         }
-        let per_cfg = if tier == Tier::Thorough { 8_000 } else { 1_600 };
-        let mut g = Gen { emit, raw_budget: 200 };
+        let per_cfg = if tier == Tier::Thorough { 12_000 } else { 3_500 };
+        let mut g = Gen { emit, raw_budget: 200, fam: HashMap::new() };
         // purely hostile strings: empty, short, random, all-equal bytes
         for k in 0..64usize {
             let z = vec![0u8; k];
@@ -1228,6 +2321,7 @@ impl Prop for P {
         {
             let mut r = rng.fork();
             gen_fri(g.emit, &mut r, tier);
+            gen_mrk(g.emit, &mut r, tier);
         }
         for (i, b) in bases.iter().enumerate() {
             // the two smallest configurations get the full single-byte treatment
@@ -1245,6 +2339,7 @@ impl Prop for P {
             Some("mut") => exec_mut(&t[1..]),
             Some("raw") => exec_raw(&t[1..]),
             Some("fri") => exec_fri(&t[1..]),
+            Some("mrk") => exec_mrk(&t[1..]),
             _ => Outcome::ok("bad-op"),
         }
     }
